@@ -14,9 +14,12 @@ Contract (property statement + AnchorConflictResolutions docstring + yaml-merge 
     rename  both values are kept: left uses read the left value, right uses read the right value; the
             right-hand anchor gets a new name (the left one keeps its name), consistently
     equal-name/equal-value and disjoint names are never a conflict (never refused, under any policy)
-  Expected data = MODEL_MERGE(resolve(lhs, env_l), resolve(rhs, env_r), hashes, arrays) where resolve turns
-  every definition/alias into the value its name has under the policy, and MODEL_MERGE is the plain-data
-  merge of the option docstrings (hash DEEP/LEFT/RIGHT, array ALL/LEFT/RIGHT/UNIQUE, right scalars override).
+  Expected data = MERGE(resolve(lhs, env_l), resolve(rhs, env_r), hashes, arrays) where resolve turns
+  every definition/alias into the value its name has under the policy, and MERGE is the plain-data
+  merge of the option docstrings (hash DEEP/LEFT/RIGHT, array ALL/LEFT/RIGHT/UNIQUE, right scalars override):
+  spec.merge.spec_outcomes (every reading its documented liberties admit) when /verif/spec/merge.py is
+  importable, cross-checked on every case against the local 30-line model_merge (a disagreement of the two
+  oracles raises = harness bug); the local model alone otherwise.
   Map key ORDER is not compared here (that is C05); only data.
   In every accepted case: dump works; the text has no anchor defined twice and no alias without an earlier
   definition; the strict reload succeeds and plain(reload) == plain(Merger.data).
@@ -31,20 +34,19 @@ Input space
      tokens {1, 2, &x 1, &x 2, &y 1, &y 2, *x, *y} (an alias only after its definition, every name defined
      at most once => 0..2 anchors per document), all pairs of documents of the same root kind, x style
      pairs (block/block, flow/flow [, mixed]) x 4 anchor policies x MERGE_POLICIES.  See TIERS.
-  R. seeded random bigger documents (nested maps to depth 3, scalar lists, up to 3 anchors from
+  R. seeded random bigger documents (nested maps to depth 3, scalar lists, lists of records, up to 3 anchors from
      {x, y, x_1} -- x_1 is the name `rename` would pick for x --, values {1, 2, 3, p, q}, several aliases per
      anchor, independent or structure-sharing pairs, random styles) x 4 anchor policies x 2 random merge policies.
   Generated documents never clash structurally (a key name determines the kind of its value; lists hold
-  scalars only, are never empty), so a MergeException can only come from the anchor policy.
+  only scalars or only records and are never empty; record lists merge with the default aoh=all = append),
+  so a MergeException can only come from the anchor policy.
 
 Witness keys
   C10/crash/<Exc>@<file>:<function>            merge_with raised something that is not a MergeException
   C10/stop/accepted-a-conflict                 stop did not refuse
   C10/refused-without-conflict/<policy>/<relation>   MergeException although no conflict (or policy != stop)
-  C10/data/<policy>/<relation>/<dep>           Merger.data differs from the expected data.  relation = strongest
-                                               relation of the two anchor sets (conflict | equal | no-shared-name);
-                                               dep = anchor-resolution if the pair also fails under hashes=deep,
-                                               arrays=all, else only-with-hashes-H-arrays-A
+  C10/data/<policy>/<relation>                 Merger.data differs from the expected data.  relation = strongest
+                                               relation of the two anchor sets (conflict | equal | no-shared-name)
   C10/rename/<what>                            naming clause of rename broken on the merged object graph
   C10/dump-crash/<Exc>@<file>:<function>
   C10/dump/duplicate-anchor/<name class>[/<policy>], C10/dump/undefined-alias/<name class>[/<policy>]
@@ -70,6 +72,11 @@ from yamlpath.merger import Merger, MergerConfig
 from yamlpath.merger.exceptions import MergeException
 
 from rtc import gen, harness
+
+try:                                    # the shared documented-policy oracle (plain data), if present
+    from spec import merge as _spec
+except ImportError:                     # pragma: no cover
+    _spec = None
 
 PKG_DIR = os.path.dirname(os.path.abspath(yamlpath.__file__))
 
@@ -183,19 +190,14 @@ def anchors_of(t):
     return out
 
 
-def resolve(t, env, own_defs=False):
-    """Template -> plain data; definitions and aliases read env[name].
-    own_defs: a definition site keeps its own literal value (diagnosis only)."""
+def resolve(t, env):
+    """Template -> plain data; every definition site and every alias reads env[name]."""
     if isinstance(t, dict):
-        return {k: resolve(v, env, own_defs) for k, v in t.items()}
+        return {k: resolve(v, env) for k, v in t.items()}
     if isinstance(t, list):
-        return [resolve(v, env, own_defs) for v in t]
+        return [resolve(v, env) for v in t]
     kind, name, val = leaf(t)
-    if kind == "lit":
-        return val
-    if kind == "def" and own_defs:
-        return val
-    return env[name]
+    return val if kind == "lit" else env[name]
 
 
 # ----------------------------------------------------------------------------------------------
@@ -259,6 +261,9 @@ def model_merge(l, r, hashes, arrays, dedupe_rhs=False):
     if isinstance(l, list) and isinstance(r, list):
         if not l or not r:
             raise ModelClash("empty list: outside the generated space")
+        if isinstance(r[0], dict):
+            # Array-of-Hashes, mode ALL (the default; no --aoh option is passed): every RHS record is appended
+            return l + r
         if arrays == "left":
             return l
         if arrays == "right":
@@ -302,7 +307,27 @@ def expectation(lt, rt, anchors, hashes, arrays):
         a2 = model_merge(pl, pr, hashes, arrays, True)
         if a2 != a1:
             exp["accept"].append(a2)
+        if _spec is not None:
+            # spec.merge.spec_outcomes is the oracle of record; the local model must agree with it on the
+            # generated space (no kind clashes, no empty lists, no from-code cell) -- else an ORACLE bug: raise
+            outs = _spec.spec_outcomes(pl, pr, _spec.SpecConfig(hashes=hashes, arrays=arrays))
+            docs = []
+            for _libs, out, trace in outs:
+                if out[0] != "ok" or any(ev[0] == "from-code" for ev in trace):
+                    raise ModelClash("spec.merge leaves the documented space on %r <- %r: %r" % (pl, pr, out))
+                if not any(_same(out[1], d) for d in docs):
+                    docs.append(out[1])
+            if (any(not any(_same(a, d) for d in docs) for a in exp["accept"])
+                    or any(not any(_same(a, d) for a in exp["accept"]) for d in docs)):
+                raise AssertionError("spec.merge and the local model disagree on %r <- %r (%s/%s): %r vs %r"
+                                     % (pl, pr, hashes, arrays, docs, exp["accept"]))
+            exp["accept"] = docs
     return exp
+
+
+def _same(a, b):
+    """data equality (map key order ignored): spec.merge.veq when available (type-strict), else =="""
+    return _spec.veq(a, b) if _spec is not None else a == b
 
 
 def _strongest(exp):
@@ -452,29 +477,26 @@ def evaluate(inp):
                       "merge_with raised a non-MergeException",
                       "%s: %s" % (type(ex).__name__, str(ex)[:160]),
                       "MergeException" if exp["refuse"] else "accepted merge"))
-        return {"fails": fails, "sig": _sig(inp, exp, "crash", 0, 0), "ctx": ctx, "outcome": "crash"}
+        return {"fails": fails, "sig": _sig(inp, exp, "crash", 0, 0), "ctx": ctx, "outcome": "crash",
+                "relation": exp["relation"]}
 
     if outcome == "refused":
         if not exp["refuse"]:
             fails.append(("C10/refused-without-conflict/%s/%s" % (anchors, _strongest(exp)),
                           "merge refused although the anchor policy must accept it",
                           "MergeException: " + refusal[:160], "accepted merge: %r" % (exp["accept"][0],)))
-        return {"fails": fails, "sig": _sig(inp, exp, "refused", 0, 0), "ctx": ctx, "outcome": "refused"}
+        return {"fails": fails, "sig": _sig(inp, exp, "refused", 0, 0), "ctx": ctx, "outcome": "refused",
+                "relation": exp["relation"]}
 
     if exp["refuse"]:
         fails.append(("C10/stop/accepted-a-conflict", "policy stop accepted a merge with conflicting anchors %s"
                       % exp["conflicts"], "result %r" % (gen.plain(merger.data),), "MergeException"))
-        return {"fails": fails, "sig": _sig(inp, exp, "accepted", 0, 0), "ctx": ctx, "outcome": "accepted"}
+        return {"fails": fails, "sig": _sig(inp, exp, "accepted", 0, 0), "ctx": ctx, "outcome": "accepted",
+                "relation": exp["relation"]}
 
     got = gen.plain(merger.data)
-    if got not in exp["accept"]:
-        # shape class of the key: does the same pair already fail under the default merge policies?
-        dep = "anchor-resolution"
-        if (hashes, arrays) != ("deep", "all"):
-            base = evaluate(dict(inp, hashes="deep", arrays="all"))
-            if not any(f[0].startswith("C10/data/") for f in base["fails"]):
-                dep = "only-with-hashes-%s-arrays-%s" % (hashes, arrays)
-        fails.append(("C10/data/%s/%s/%s" % (anchors, _strongest(exp), dep),
+    if not any(_same(got, d) for d in exp["accept"]):
+        fails.append(("C10/data/%s/%s" % (anchors, _strongest(exp)),
                       "merged data differs from the policy-defined result (relation %s, hashes=%s arrays=%s)"
                       % (exp["relation"], hashes, arrays), repr(got), repr(exp["accept"][0])))
 
@@ -509,7 +531,7 @@ def evaluate(inp):
                       "dumping the merged document raised", "%s: %s" % (type(ex).__name__, str(ex)[:160]),
                       "YAML text"))
         return {"fails": fails, "sig": _sig(inp, exp, "dump-crash", len(ganch), len(fresh)), "ctx": ctx,
-                "outcome": "dump-crash"}
+                "outcome": "dump-crash", "relation": exp["relation"]}
     text = buf.getvalue()
     ctx["dumped"] = text
     dup, undef = text_anchor_faults(text)
@@ -531,12 +553,12 @@ def evaluate(inp):
             fails.append(("C10/reload-fails/%s/%s/%s" % (mc, _strongest(exp), anchors),
                           "the strict loader rejects the dumped result", "%s | %r" % (msg[:200], text),
                           "reloads to %r" % (got,)))
-    elif redata != got:
+    elif not _same(redata, got):
         fails.append(("C10/reload-differs/%s/%s" % (_strongest(exp), anchors),
                       "reloading the dump gives other data than the merge computed",
                       "%r from %r" % (redata, text), repr(got)))
     return {"fails": fails, "sig": _sig(inp, exp, "accepted", len(ganch), len(fresh)), "ctx": ctx,
-            "outcome": "accepted"}
+            "outcome": "accepted", "relation": exp["relation"]}
 
 
 def _sites(t, path_kind="root"):
@@ -591,10 +613,10 @@ def _work(chunk, policies):
             res = evaluate(inp)
             n += 1
             sample = None
-            if res["sig"] is not None and len(coll.samples) < 2 and n % 37 == 5:
+            if res["sig"] is not None and not coll.samples and n % 7 == 3 and "conflict" in res["relation"]:
                 sample = {"lhs": res["ctx"]["lhs_yaml"], "rhs": res["ctx"]["rhs_yaml"], "anchors": anchors,
-                          "hashes": hashes, "arrays": arrays, "outcome": res["outcome"],
-                          "dumped": res["ctx"].get("dumped")}
+                          "hashes": hashes, "arrays": arrays, "relation": res["relation"],
+                          "outcome": res["outcome"], "dumped": res["ctx"].get("dumped")}
             coll.case(res["sig"], sample)
             if res["fails"]:
                 _record(coll, inp, res)
@@ -626,7 +648,7 @@ def _four_slot_fillings():
 TIERS = {
     # map shapes, seq shapes, literals of the 2-slot fillings, extra (3/4-slot) shapes, style pairs, merge policies, random pairs
     "quick": dict(map2=SHAPES_MAP2[:3], seq2=SHAPES_SEQ2, lits=("1",), extra=False,
-                  styles=(("block", "block"), ("flow", "flow")), merge_policies=MERGE_POLICIES[:4], nrandom=1500),
+                  styles=(("block", "block"), ("flow", "flow")), merge_policies=MERGE_POLICIES[:4], nrandom=3000),
     "thorough": dict(map2=SHAPES_MAP2, seq2=SHAPES_SEQ2, lits=LITS, extra=True,
                      styles=(("block", "block"), ("flow", "flow")), merge_policies=MERGE_POLICIES, nrandom=40000),
 }
@@ -636,6 +658,7 @@ R_VALUES = ("1", "2", "3", "p", "q")
 R_SCALAR_KEYS = ("a", "b", "c", "d")
 R_LIST_KEYS = ("s", "t")
 R_MAP_KEYS = ("m", "k")
+R_AOH_KEY = "r"          # list of 1..2 records (maps of scalars); merged with the default aoh=all (append)
 
 
 def _random_shape(rng, root):
@@ -647,6 +670,8 @@ def _random_shape(rng, root):
         keys += [k for k in R_LIST_KEYS if rng.random() < 0.4]
         if depth < 2:
             keys += [k for k in R_MAP_KEYS if rng.random() < 0.35]
+        if rng.random() < 0.15:
+            keys.append(R_AOH_KEY)
         if not keys:
             keys = [rng.choice(R_SCALAR_KEYS)]
         rng.shuffle(keys)
@@ -654,6 +679,9 @@ def _random_shape(rng, root):
         for k in keys:
             if k in R_SCALAR_KEYS:
                 out[k] = SLOT
+            elif k == R_AOH_KEY:
+                out[k] = [{kk: SLOT for kk in rng.sample(("a", "b"), rng.randint(1, 2))}
+                          for _ in range(rng.randint(1, 2))]
             elif k in R_LIST_KEYS:
                 out[k] = [SLOT] * rng.randint(1, 3)
             else:
@@ -722,12 +750,23 @@ def run(tier="quick", seed=0, jobs=None):
     coll = harness.Collector(max_samples=8)
     policies = [(a, mp) for a in ANCHOR_POLICIES for mp in cfg["merge_policies"]]
     items, counts = enumerated_pairs(cfg)
+    samples = []
     for res in harness.pmap_chunks(_work, items, jobs=jobs, chunk=60, extra=(policies,)):
+        samples.extend(res.pop("samples"))
+        res["samples"] = []
         coll.merge(res)
     n_enum = coll.evaluations
     ritems = random_pairs(seed, cfg["nrandom"])
+    rsamples = []
     for res in harness.pmap_chunks(_work, ritems, jobs=jobs, chunk=60, extra=(policies,)):
+        rsamples.extend(res.pop("samples"))
+        res["samples"] = []
         coll.merge(res)
+    # at most one sample per chunk came back; keep a spread over the whole space (6 enumerated + 2 random)
+    for pool, k in ((samples, 6), (rsamples, 2)):
+        if pool:
+            step = max(1, len(pool) // k)
+            coll.samples.extend(pool[step // 2::step][:k])
     bounds = {
         "anchor_names": ["x", "y"], "anchor_values": [1, 2], "literals_in_2_slot_fillings": list(cfg["lits"]),
         "shapes_map_2_slots": [render_flow(s) for s in cfg["map2"]],
@@ -740,7 +779,7 @@ def run(tier="quick", seed=0, jobs=None):
         "enumerated_cases": n_enum,
         "random_pairs": cfg["nrandom"], "random_cases": coll.evaluations - n_enum, "seed": seed,
         "random_docs": {"names": list(R_NAMES), "values": list(R_VALUES), "max_anchors": 3, "map_depth": 3,
-                        "list_len": [1, 3], "root_seq_len": [1, 5]},
+                        "list_len": [1, 3], "root_seq_len": [1, 5], "record_lists(aoh=all)": [1, 2]},
     }
     rule = ("for every pair of documents (same root kind) built from the listed shapes with every valid filling of the "
             "slots by {%s%s, &x 1, &x 2, &y 1, &y 2, *x, *y} (complete: %d map-rooted and %d sequence-rooted documents), "
